@@ -1,4 +1,4 @@
-import GB.C13.Proofs2
+import GB.C13.Proofs3
 import GB.Generated.Facts
 import GB.C09.Props
 /-
@@ -853,3 +853,33 @@ theorem C13_facts_close_code :
     GB.Generated.websocketErrorReturns = [("err==nil", "1000,\"\""), ("", "code,reason")] ∧
     GB.Generated.websocketErrorCodeAssigns =
       [("", "1001"), ("errors.Is(err,errExpectedBinary)||errors.Is(err,errExpectedText)", "1003")] := by decide
+
+/-! ## wave 7: `strings.ToValidUTF8` as coded (two loops and the fast path) -/
+
+/-- `strings.ToValidUTF8(s, "�")` modelled statement by statement — the first loop scanning for the first byte
+    that starts no well-formed rune (`firstInvalid`), the fast path `if b.Cap() == 0 { return s }`, the builder
+    pre-filled with `s[:i]`, the main loop over `s[i:]` with its `c < RuneSelf` shortcut (`toValidMain`) — computes
+    the same function as the one-loop model `toValidUTF8` used everywhere else in this slice. -/
+theorem C13_toValidUTF8_fastpath_eq (s : Bytes) : toValidUTF8Coded s = toValidUTF8 s := toValidUTF8Coded_eq s
+
+/-- the fast path is taken exactly for valid UTF-8 (and then returns its argument) -/
+theorem C13_toValidUTF8_fastpath_iff (s : Bytes) :
+    firstInvalid s.length s = none ↔ ValidUTF8 s = true :=
+  ⟨firstInvalid_none_valid _ s (Nat.le_refl _), valid_firstInvalid_none _ s⟩
+
+/-- on the slow path the scan stops at a byte that starts no well-formed rune, after a valid prefix that is copied
+    unchanged; the main loop starts there (so the output begins `s[:i] ++ "�"`). -/
+theorem C13_toValidUTF8_slowpath (s : Bytes) (i : Nat) (h : firstInvalid s.length s = some i) :
+    i < s.length ∧ ValidUTF8 (s.take i) = true ∧ runeLen (s.drop i) = none ∧
+      toValidUTF8 s = s.take i ++ replacementChar ++ toValidAux (s.length - i - 1) true (s.drop (i + 1)) := by
+  obtain ⟨h1, h2, h3, h4⟩ := firstInvalid_some_split _ s i (Nat.le_refl _) h
+  refine ⟨h1, h3, h2, ?_⟩
+  unfold toValidUTF8
+  rw [h4]
+  have hd : s.drop i = s[i] :: s.drop (i + 1) := (List.getElem_cons_drop h1).symm
+  rw [hd] at h2
+  obtain ⟨k, hk⟩ : ∃ k, s.length = k + 1 := ⟨s.length - 1, by omega⟩
+  rw [hd, hk]
+  simp only [toValidAux, h2, Bool.false_eq_true, ↓reduceIte, List.append_assoc]
+  congr 2
+  apply toValidAux_fuel <;> simp only [List.length_drop] <;> omega
